@@ -315,14 +315,9 @@ func (f *File) enterWriteMode() error {
 			}
 		}
 
-		if !f.flags.Append {
-			if f.flags.Truncate {
-				cursor = 0
-			}
-
-			if _, err := f.writeBuf.Seek(cursor, io.SeekStart); err != nil {
-				return err
-			}
+		// `O_APPEND` only affects where writes go (see `Write`), not where reading continues
+		if _, err := f.writeBuf.Seek(cursor, io.SeekStart); err != nil {
+			return err
 		}
 	}
 
@@ -656,6 +651,13 @@ func (f *File) Write(p []byte) (n int, err error) {
 		return 0, err
 	}
 
+	// With `O_APPEND` every write goes to the end of the file, wherever the cursor is
+	if f.flags.Append {
+		if _, err := f.writeBuf.Seek(0, io.SeekEnd); err != nil {
+			return 0, err
+		}
+	}
+
 	n, err = f.writeBuf.Write(p)
 	if err != nil {
 		return 0, err
@@ -731,6 +733,13 @@ func (f *File) WriteString(s string) (ret int, err error) {
 
 	if err := f.enterWriteMode(); err != nil {
 		return 0, err
+	}
+
+	// With `O_APPEND` every write goes to the end of the file, wherever the cursor is
+	if f.flags.Append {
+		if _, err := f.writeBuf.Seek(0, io.SeekEnd); err != nil {
+			return 0, err
+		}
 	}
 
 	return f.writeBuf.Write([]byte(s))
